@@ -260,7 +260,8 @@ func (e *Enc) sortOf(t types.Type) *Sort {
 	case *types.Slice:
 		return sSlice
 	case *types.Array:
-		return sRef // arrays are only supported behind pointers/globals
+		// array VALUES are SMT arrays; pointers to arrays are references whose cells live in the element heap
+		return arrSort(sI64, e.sortOf(tt.Elem()))
 	case *types.Signature:
 		return sFn
 	case *types.Interface:
@@ -450,10 +451,13 @@ func (s *State) clone() *State {
 
 // havocAll forgets everything: every heap becomes a fresh generation constant.
 func (s *State) havocAll() {
+	oldNext := s.next()
 	s.e.fresh++
 	s.gen = s.e.fresh
 	s.m = map[string]*T{}
 	s.parents, s.conds = nil, nil
+	// the allocation counter never decreases
+	s.e.assume(mk(sapp(">=", s.next().S, oldNext.S), sBool))
 }
 
 func (e *Enc) baseHeap(gen int, name string, so *Sort) *T {
